@@ -220,7 +220,7 @@ def cxx_build(name, sources, config='gcc20-ubsan', extra=(), gen=None):
             for fn, o, r in ex.map(one, srcs):
                 if r.returncode != 0:
                     shutil.rmtree(d, ignore_errors=True)
-                    raise BuildError('compile of %s failed (%s)' % (fn, config), r.stderr[-4000:])
+                    raise BuildError('compile of %s failed (%s)' % (fn, config), r.stderr if len(r.stderr) < 14000 else r.stderr[:9000] + '\n[...]\n' + r.stderr[-4000:])
                 objs.append(o)
         link_flags = [f for f in flags if f.startswith('-fsanitize') or f.startswith('-std')]
         r = run([comp] + link_flags + objs + ['-o', exe + '.tmp', '-lpthread'])
